@@ -496,7 +496,11 @@ fn recover(
                 page[PAGE_SIZE - 32 - 8..PAGE_SIZE - 32]
                     .copy_from_slice(&elided_children.to_bytes());
 
+                #[cfg(nomt_verif)]
+                crate::verif::pre(crate::verif::Kind::WriteAt, ht_fd.as_raw_fd(), pn * PAGE_SIZE as u64, PAGE_SIZE as u64, Some(&page[..]))?;
                 ht_fd.write_all_at(&page, pn * PAGE_SIZE as u64)?;
+                #[cfg(nomt_verif)]
+                crate::verif::post(crate::verif::Kind::WriteAt, ht_fd.as_raw_fd());
             }
         }
     }
@@ -513,7 +517,11 @@ fn recover(
             page_data[..].copy_from_slice(meta_map.page_slice(changed_meta_page_ix));
 
             let pn = ht_offsets.meta_bytes_index(changed_meta_page_ix as u64);
+            #[cfg(nomt_verif)]
+            crate::verif::pre(crate::verif::Kind::WriteAt, ht_fd.as_raw_fd(), pn * PAGE_SIZE as u64, PAGE_SIZE as u64, Some(&page_data[..]))?;
             ht_fd.write_all_at(page_data, pn * PAGE_SIZE as u64)?;
+            #[cfg(nomt_verif)]
+            crate::verif::post(crate::verif::Kind::WriteAt, ht_fd.as_raw_fd());
 
             page_pool.dealloc(page);
         }
